@@ -190,3 +190,56 @@ def sys_model_check(ctx, indices, depth, label="layer-S"):
     ctx.cov["transitions"] += res["generated"]
     ctx.cov["steps"].append({"step": "layer S model check (MoveGenSys vs Chess)", "distinct": res["distinct"], "depth": depth})
     os.remove(res["out_path"])
+
+
+def games_and_validate(ctx, shards, events, tags="std,perft,tiny,promo,clock", kmax=20000):
+    """whole games between two plugin instances driven like the tournament loop of chess-cli (engine
+    proposals under a counting limit), validated by BotTrace.tla: the positions are those of real engine
+    play (natural mates, promotions, endgames, repetitions); per ply the loop's verdict from
+    Board::state() must be the verdict of layer R.  Checks of other properties are counted, not reported."""
+    keys = ctx.keys()
+
+    def one(i):
+        tr = os.path.join(ctx.work, "games-%d.ndjson" % i)
+        h = ctx.harness(["record-bot", "--mode", "match", "--tags", tags, "--seed", ctx.seed, "--shard", 100 + i, "--events", events,
+                         "--kmax", kmax, "--out", tr], timeout=3000)
+        r = ctx.tlc("BotTrace", "BotTrace.cfg", env={"VERIF_TRACE": tr, "VERIF_KEYS": keys}, workers=1, deque=True, timeout=3000, name="games-%d" % i)
+        return i, tr, h, r
+
+    total = games = ends = 0
+    for i, tr, h, r in ctx.pmap(one, list(range(shards))):
+        for pn in h["panics"]:
+            report_panic(ctx, pn, {"step": "games", "shard": i})
+        done = list(ctx.tlc_lines(r["out_path"], "DONE"))
+        if not done or done[0]["lines"] != done[0]["consumed"]:
+            raise ToolError("game trace validation failed (shard %d): %s" % (i, r["errors"][:3]))
+        total += done[0]["lines"]
+        if h["summary"]:
+            games += h["summary"]["counts"].get("games", 0)
+            ends += h["summary"]["counts"].get("mates", 0) + h["summary"]["counts"].get("draws", 0)
+        bads = list(ctx.tlc_lines(r["out_path"], "BAD"))
+        kept = None
+        lines = open(tr).read().split("\n") if bads else []
+        n = 0
+        for b in bads:
+            if b["prop"] != ctx.prop:
+                ctx.other(b["prop"])
+                continue
+            n += 1
+            if n > 3:
+                continue
+            if kept is None:
+                kept = os.path.join(REPLAYS, "%s-%s-%d-trace-games-%d.ndjson" % (ctx.prop, ctx.tier, ctx.seed, i))
+                shutil.copy(tr, kept)
+            ev = json.loads(lines[b["line"] - 1])
+            ctx.violation(b["check"], {"trace_line": b["line"], "event": {k: v for k, v in ev.items() if k != "board"}},
+                          {"kind": "trace", "record_args": [str(a) for a in h["args"]], "trace": kept, "line": b["line"], "module": "BotTrace"})
+        ctx.cov["states"] += r["distinct"]
+        ctx.cov["transitions"] += r["generated"]
+        os.remove(tr)
+        os.remove(r["out_path"])
+    ctx.cov["traces_validated_against_impl"] += shards
+    ctx.cov["evaluations"] += total
+    ctx.cov["distinct_nontrivial"] += ends
+    ctx.cov["steps"].append({"step": "engine-played games through two plugin instances", "shards": shards, "games": games,
+                             "games_ended_by_mate_or_draw": ends, "events_validated": total})
